@@ -132,6 +132,42 @@ func (c19) Exec(op string) string {
 			}
 			return strings.Join(rows, ",")
 		})
+	case "c19.share":
+		// c19.share <cap> <op>…  two connections to one backend share its counter (Collector.AllocCounter); i<k>, l: the live one counts
+		// and is read; F: the old one is stopped (its filter frees the counter); f: the live one is stopped too  -> dump after each op
+		capa, err := strconv.Atoi(f[1])
+		if err != nil || capa < 1 || capa > 255 {
+			return "bad-op"
+		}
+		return recoverStr(func() string {
+			col := hotkey.NewCollector(uint8(capa))
+			old := col.AllocCounter("backend")
+			live := col.AllocCounter("backend")
+			var outs []string
+			for _, o := range f[2:] {
+				st := ""
+				switch {
+				case strings.HasPrefix(o, "i"):
+					live.Incr("k" + o[1:])
+				case o == "l":
+					st = fmtLatch(live.Latch())
+				case o == "F":
+					if old != nil {
+						old.Free()
+						old = nil
+					}
+				case o == "f":
+					live.Free()
+				default:
+					return "bad-op"
+				}
+				outs = append(outs, st+hotkey.VerifDump(live))
+			}
+			if len(outs) == 0 {
+				return "-"
+			}
+			return strings.Join(outs, "|")
+		})
 	case "c19.cnt":
 		capa, err := strconv.Atoi(f[1])
 		if err != nil || capa < 0 || capa > 255 {
@@ -351,6 +387,21 @@ func (c19) Gen(r *hx.Run) {
 			}
 		}
 		r.Do(fmt.Sprintf("c19.cnt %d %s", capa, strings.Join(ops, " ")), capa > 0 && nk > capa && n >= 6, "cnt")
+		if capa >= 1 && i%3 == 0 {
+			// the same history on the counter of a backend that two connections share; the old one is stopped somewhere in between
+			sh := append([]string{}, ops...)
+			for j := range sh {
+				if sh[j] == "f" {
+					sh[j] = "l" // the live connection is stopped last, if at all
+				}
+			}
+			at := rng.Intn(len(sh) + 1)
+			sh = append(sh[:at], append([]string{"F"}, sh[at:]...)...)
+			if rng.Intn(3) == 0 {
+				sh = append(sh, "f", "i1")
+			}
+			r.Do(fmt.Sprintf("c19.share %d %s", capa, strings.Join(sh, " ")), true, "shared-counter")
+		}
 	}
 	if r.Thorough() {
 		// all sequences of length <= 8 over 4 keys for cap 1..3
